@@ -348,6 +348,84 @@ from contracts import c01_parser as _prs  # noqa: E402
 
 EXTRA = EXTRA + [_prs.validate_model]
 
+
+# ------------------------------- third-party OLE property parser on hostile property streams (recorded finding) --
+# The legacy extractors ask olefile for the document properties (`ole.get_metadata()`).  olefile's property parser trusts the element count of a
+# VT_VECTOR property: a 72 KB .ppt whose SummaryInformation stream starts with other bytes keeps it busy for longer than any budget.  The loop is
+# not in the library (so no `decreases#` obligation of the library speaks about it) but the call does not return, which is what C01 states.
+# BOUNDED native scope, run on every check: the three legacy fixtures with record bytes spliced over the start of their property streams.
+OLE_PROP_OID = "C01/replay::third-party/bounded#ole-property-streams-of-the-legacy-fixtures-parse-within-the-budget.BOUNDED"
+OLE_PROP_BOUND = "doc / ppt / xls fixture, record bytes of the replayer's grammar (EMF blip run, PNG chunk run with hostile lengths) written over the start of the SummaryInformation stream; 8 s per input in a child process; the scope stops at its first witness"
+_OLE_PROP_CHILD = r"""
+import sys, io, json, importlib, faulthandler
+sys.path.insert(0, sys.argv[2]); sys.path.insert(0, sys.argv[1])
+import logging; logging.disable(logging.CRITICAL)
+R = importlib.import_module("replay.C01")
+from sharepoint2text.parsing import router
+kind, idx = sys.argv[3], int(sys.argv[4])
+cases = [c for c in R.ole_record_cases(sys.argv[1], kind) if "\\x05SummaryInformation@start" in repr(c[0]) and ("blip:emf .. " in c[0] or "png:second-chunk-length-ffffffff" in c[0])]
+if idx < 0:
+    print(json.dumps(len(cases))); sys.exit(0)
+label, data = cases[idx]
+modpath, fn = router._EXTRACTOR_REGISTRY[kind]
+f = getattr(importlib.import_module(modpath), fn)
+faulthandler.dump_traceback_later(8, exit=True)
+try:
+    for _ in f(io.BytesIO(data), "x." + kind):
+        pass
+except Exception:
+    pass
+print("RETURNED")
+"""
+
+
+def ole_property_scope(repo, tier):
+    import os
+    import subprocess
+    from pyvc.flow import ground_obligation
+    root = os.path.dirname(os.path.dirname(os.path.abspath(__file__)))
+    rp = repo or loader.REPO
+    bad, n = [], 0
+    try:
+        for kind in ("ppt", "doc", "xls"):
+            c = subprocess.run(["/venv/bin/python", "-c", _OLE_PROP_CHILD, rp, root, kind, "-1"], capture_output=True, text=True, timeout=120, cwd=rp)
+            k = int((c.stdout.strip().splitlines() or ["0"])[-1])
+            for i in range(min(k, 2)):                      # two inputs per format are enough to keep the finding observed
+                n += 1
+                try:
+                    p = subprocess.run(["/venv/bin/python", "-c", _OLE_PROP_CHILD, rp, root, kind, str(i)], capture_output=True, text=True, timeout=40, cwd=rp)
+                    if "RETURNED" not in p.stdout:
+                        where = [l.strip() for l in p.stderr.splitlines() if l.strip().startswith("File ")][:2]
+                        bad.append(f"{kind} input {i}: no result within 8 s; innermost frames: {' <- '.join(where)[:300]}")
+                except subprocess.TimeoutExpired:
+                    bad.append(f"{kind} input {i}: child killed after 40 s")
+                if bad:
+                    break                                   # one witness is enough (each costs its full budget)
+            if bad:
+                break
+    except Exception as e:  # noqa
+        return {"obligations": [], "undecided": [{"obligation": OLE_PROP_OID, "why": f"scope could not run: {type(e).__name__}: {e}"[:300]}]}
+    o = ground_obligation(OLE_PROP_OID, not bad, "; ".join(bad) or f"{n} inputs returned", "replay/C01.py::ole_record_cases", kind="bounded", backend="native-replay")
+    o["bounded"] = True
+    o["bound"] = OLE_PROP_BOUND
+    return {"obligations": [o]}
+
+
+EXTRA = EXTRA + [ole_property_scope]
+
+
+def known_findings(kf, violations, repo, tier):
+    """Recorded genuine defects of C01 (known_findings.json).  The witness of a finding IS its bounded scope obligation, run natively in this very
+    check: the finding still fails iff that obligation is among the violations; it covers that obligation id only."""
+    vio = {v["id"]: v for v in violations}
+    out = []
+    for f in kf:
+        ids = [o for o in f.get("covers", [f.get("obligation")]) if o]
+        hit = [o for o in ids if o in vio]
+        out.append({"finding": f["id"], "still_fails": bool(hit), "line": f"{f['id']}: {f['what']}", "covers": hit,
+                    "witness_replay": "; ".join(str(vio[o].get("reason", ""))[:300] for o in hit)})
+    return out
+
 BOUNDED = ["regex patterns whose position automaton has EDA are decided by a BOUNDED pumping experiment on CPython's matcher (decreases#regex-eda-pump-*: "
            "k <= 100 pumps, every witness cycle x 13 suffixes x the match modes the module uses; pristine: rtf_extractor._RE_PICT); polynomial backtracking of high degree is not decided",
            "termination, what is NOT discharged: `for` loops -- decreases#for-loops-finite shows per file that no loop iterates an infinite constructor or grows its own "
